@@ -389,10 +389,10 @@ func Harness_C05_pairs() {
 }
 
 // Harness_C08_pairs: a lock file is created only when absent and removed or renamed only by the process that created it.
-// bounds: as Harness_C04_pairs, with <= 3 preemptions (thorough 4)
+// bounds: as Harness_C04_pairs, with <= 3 preemptions in both tiers
 // covers: done
 func Harness_C08_pairs() {
-	scenario(pickPair(), 3, 0, 3+VerifTier(), monLocks)
+	scenario(pickPair(), 3, 0, 3, monLocks)
 }
 
 // Harness_C08_triples: three contending processes (the loser of a re-acquire race must not delete the winner's lock).
